@@ -226,13 +226,56 @@ impl C05 {
   }
 }
 
+/// the astronomical quantities whose value must be a function of the arguments alone
+fn pure_value(kind: i64, p1: i64, p2: i64) -> Vec<u64> {
+  match kind {
+    0 => {
+      let t = SolarTerm::from_index(p1 as isize, p2 as isize);
+      vec![t.get_julian_day().get_day().to_bits(), t.get_cursory_julian_day().to_bits()]
+    }
+    1 => vec![U::dt_calc(p1 as f64 / 100.0).to_bits()],
+    2 => {
+      // day-level and precise solvers at an arbitrary day offset from J2000
+      let jd = p1 as f64 + p2 as f64 / 1000.0;
+      vec![U::calc_qi(jd).to_bits(), U::calc_shuo(jd).to_bits(), U::qi_accurate2(jd).to_bits(), U::qi_high(jd / 365.2422 * 2.0 * PI).to_bits(), U::shuo_high(jd / 29.5306 * 2.0 * PI).to_bits()]
+    }
+    _ => vec![],
+  }
+}
+
+impl C05 {
+  /// a = [kind, p1, p2]: the value obtained on this (used) thread equals the value obtained alone on a brand-new thread
+  fn eval_pure(&self, env: &Env, out: &mut Out, case: &Case) {
+    let (kind, p1, p2) = (case.a[0], case.a[1], case.a[2]);
+    out.eval("pure");
+    out.nontrivial("pure", &case.a);
+    let here = guard(|| pure_value(kind, p1, p2));
+    let alone = std::thread::spawn(move || guard(|| pure_value(kind, p1, p2))).join().unwrap_or_else(|_| Err("thread panicked".into()));
+    let what = match kind {
+      0 => format!("SolarTerm::from_index({}, {}) instant and cursory day", p1, p2),
+      1 => format!("dt_calc({:.2})", p1 as f64 / 100.0),
+      _ => format!("calc_qi/calc_shuo/qi_accurate2/qi_high/shuo_high at day offset {}", p1 as f64 + p2 as f64 / 1000.0),
+    };
+    if out.wants_sample("pure", true) {
+      out.sample("pure", true, || json!({"query": what, "bits": here.clone().unwrap_or_default()}));
+    }
+    if here != alone {
+      let f = |r: &Result<Vec<u64>, String>| match r {
+        Ok(v) => format!("{:?}", v.iter().map(|b| f64::from_bits(*b)).collect::<Vec<_>>()),
+        Err(e) => format!("panic {}", e),
+      };
+      out.fail(env, viol("pure", "value_depends_on_earlier_queries_of_the_thread", case, &[("kind", kind), ("p1", p1), ("p2", p2)], what, format!("{} (alone on a new thread)", f(&alone)), f(&here)));
+    }
+  }
+}
+
 impl Prop for C05 {
   fn id(&self) -> &'static str {
     "C05"
   }
   fn meta(&self, env: &Env) -> Meta {
     Meta {
-      rule: format!("Sub-checks: `sun` every term (24 x 251) of 1900..2150 through the UT chain (library instant UTC+8 -> UT -> TT with the Espenak-Meeus Delta T) and {} through TT (library's own Delta T, so Delta T models do not enter): Meeus ch.25 apparent longitude at that instant equals 270+15k deg within the theory's accuracy (1800 s + 120 s/cy^2), and the library's own longitude series is at the target within 2 arcsec; `moon` every lunation of 1900..2150 (with civil-day agreement) and {}: library precise conjunction vs Meeus ch.49 (25 periodic + 14 planetary terms) within 60 s + 6 s/cy^2; `pathterm` every term 1961..9999 (192,936): calendar-making day == UTC+8 civil day of the precise instant; `pathmoon` every lunation 1961..8000: first day == civil day of the precise conjunction; `inverse_sun`/`inverse_moon`: all exact multiples of pi/12 resp. 2pi over +-10,000 years and proptest f64 targets: |series(solver(w)) - w| <= 1 arcsec; `dt`: Delta T finite with steps < 6 s per 0.01 y over -4000..10000 ({}). Non-trivial: events within 20 (30) minutes of local midnight; exact-multiple targets; Delta T table joins.", env.tier.pick("every term of every 10th year in -1000..5000", "every term of every year in -1000..5000"), env.tier.pick("every 7th lunation of -1000..5000", "every lunation of -1000..5000"), env.tier.pick("every 0.05 y plus +-0.5 y around each table join at 0.01 y", "every 0.01 y")),
+      rule: format!("Sub-checks: `sun` every term (24 x 251) of 1900..2150 through the UT chain (library instant UTC+8 -> UT -> TT with the Espenak-Meeus Delta T) and {} through TT (library's own Delta T, so Delta T models do not enter): Meeus ch.25 apparent longitude at that instant equals 270+15k deg within the theory's accuracy (1800 s + 120 s/cy^2), and the library's own longitude series is at the target within 2 arcsec; `moon` every lunation of 1900..2150 (with civil-day agreement) and {}: library precise conjunction vs Meeus ch.49 (25 periodic + 14 planetary terms) within 60 s + 6 s/cy^2; `pathterm` every term 1961..9999 (192,936): calendar-making day == UTC+8 civil day of the precise instant; `pathmoon` every lunation 1961..8000: first day == civil day of the precise conjunction; `inverse_sun`/`inverse_moon`: all exact multiples of pi/12 resp. 2pi over +-10,000 years and proptest f64 targets: |series(solver(w)) - w| <= 1 arcsec; `dt`: Delta T finite with steps < 6 s per 0.01 y over -4000..10000 ({}); `pure`: proptest queries (term instants, Delta T, day-level and precise solvers) answered on a thread with a long random history are bit-identical to the same query alone on a brand-new thread. Non-trivial: events within 20 (30) minutes of local midnight; exact-multiple targets; Delta T table joins.", env.tier.pick("every term of every 10th year in -1000..5000", "every term of every year in -1000..5000"), env.tier.pick("every 7th lunation of -1000..5000", "every lunation of -1000..5000"), env.tier.pick("every 0.05 y plus +-0.5 y around each table join at 0.01 y", "every 0.01 y")),
       assumptions: vec![
         "Independent theory: Meeus ch. 25 low-accuracy Sun (0.01 deg), ch. 49 new moons, Espenak-Meeus Delta T; a perturbation of the library below that accuracy (about 15 min Sun, 40 s Moon) is invisible to `sun`/`moon` and only seen by `pathterm`/`pathmoon` when it moves an event across midnight on one path only".into(),
         "Beyond AD 8000 the truncated lunar solver leaves its guard band; the property excludes those lunations from day agreement".into(),
@@ -303,14 +346,14 @@ impl Prop for C05 {
         let mut kq = -240_000i64 + shard as i64;
         while kq < 240_000 {
           if env.tier == Tier::Thorough || kq.rem_euclid(16) == 0 {
-            run_case(env, out, "inverse_sun", &Case { a: vec![1], f: vec![kq as f64 * PI / 12.0], s: vec![] }, &ev);
+            run_case(env, out, "inverse_sun", &Case { a: vec![1], f: vec![kq as f64 * PI / 12.0], s: vec![], pre: vec![] }, &ev);
           }
           kq += nshards as i64;
         }
         let mut km = -123_000i64 + shard as i64;
         while km < 99_000 {
           if env.tier == Tier::Thorough || km.rem_euclid(8) == 0 {
-            run_case(env, out, "inverse_moon", &Case { a: vec![1], f: vec![km as f64 * 2.0 * PI], s: vec![] }, &ev);
+            run_case(env, out, "inverse_moon", &Case { a: vec![1], f: vec![km as f64 * 2.0 * PI], s: vec![], pre: vec![] }, &ev);
           }
           km += nshards as i64;
         }
@@ -329,11 +372,11 @@ impl Prop for C05 {
               worst = (r, w);
             }
           }
-          run_case(env, out, "inverse_moon", &Case { a: vec![2], f: vec![worst.1], s: vec![] }, &ev);
+          run_case(env, out, "inverse_moon", &Case { a: vec![2], f: vec![worst.1], s: vec![], pre: vec![] }, &ev);
         }
         let total: u32 = env.tier.pick(40_000, 800_000);
-        prop_run(env, out, "inverse_sun", total / nshards as u32, shard as u64, (-10_000.0f64..10_000.0).prop_map(|yr| Case { a: vec![0], f: vec![yr * 2.0 * PI], s: vec![] }), &ev);
-        prop_run(env, out, "inverse_moon", total / nshards as u32, shard as u64, (-10_000.0f64..8_000.0).prop_map(|yr| Case { a: vec![0], f: vec![yr * 12.3685 * 2.0 * PI], s: vec![] }), &ev);
+        prop_run(env, out, "inverse_sun", total / nshards as u32, shard as u64, (-10_000.0f64..10_000.0).prop_map(|yr| Case { a: vec![0], f: vec![yr * 2.0 * PI], s: vec![], pre: vec![] }), &ev);
+        prop_run(env, out, "inverse_moon", total / nshards as u32, shard as u64, (-10_000.0f64..8_000.0).prop_map(|yr| Case { a: vec![0], f: vec![yr * 12.3685 * 2.0 * PI], s: vec![], pre: vec![] }), &ev);
         out.set_exhaustive("inverse_sun", false);
         out.set_exhaustive("inverse_moon", false);
       }
@@ -348,6 +391,14 @@ impl Prop for C05 {
           y100 += nshards as i64;
         }
         out.set_exhaustive("dt", env.tier == Tier::Thorough);
+        // order independence: random queries on this thread (which by now has a long history) vs a brand-new thread
+        let strat = prop_oneof![
+          3 => (1i64..=9999, -2i64..=26).prop_map(|(y, k)| Case::ints(&[0, y, k])),
+          3 => (-400_000i64..1_000_000).prop_map(|y| Case::ints(&[1, y, 0])),
+          2 => (-1_100_000i64..2_900_000, 0i64..1000).prop_map(|(d, f)| Case::ints(&[2, d, f])),
+        ];
+        prop_run(env, out, "pure", env.tier.pick(6_000, 200_000) / nshards as u32, 300 + shard as u64, strat, &ev);
+        out.set_exhaustive("pure", false);
       }
       _ => panic!("unknown task {}", t),
     }
@@ -384,6 +435,7 @@ impl Prop for C05 {
       "pathmoon" => self.eval_pathmoon(env, out, case),
       "inverse_sun" | "inverse_moon" => self.eval_inverse(env, out, sub, case),
       "dt" => self.eval_dt(env, out, case),
+      "pure" => self.eval_pure(env, out, case),
       _ => panic!("unknown sub-check {}", sub),
     }
   }
